@@ -1,5 +1,6 @@
 //! unit: u07h
-//! properties: C07 C05 C10 C02
+//! properties: C07 C05 C10 C02 C06
+//! note: also run for C06: the code it constrains lies inside mechanisms those properties name (a change made there for their sake must meet these clauses too)
 //! note: going on chain with our own commitment (ChannelMonitorImpl::generate_claimable_outpoints_and_watch_outputs, slices): the claim for the funding output is built from the current holder commitment on the funding outpoint; the monitor is marked as having signed its commitment (so that no further channel update is accepted) BEFORE any early return, also when nothing is broadcast because a manually-broadcast funding transaction has not been seen; the force-close event names this channel and its funding outpoint; HTLC claims are added at once only for channels without anchors or zero-fee commitments; and a newly learned preimage claims, on a confirmed counterparty commitment, exactly the offered HTLC outputs with that payment hash, each on its own output index with its own expiry as the claim's locktime (get_counterparty_output_claims_for_preimage, closure body)
 //! trusted: R15 (deep slices): generate_claimable_outpoints_and_watch_outputs: the statements from the construction of the funding claim to the manual-broadcast early return (verbatim; the monitor is a skeleton with the fields they touch; HolderFundingOutput::build / PackageTemplate::build_package are recorders of their arguments), and the anchors test in front of the HTLC claims; get_counterparty_output_claims_for_preimage: the body of the filter_map closure verbatim as a function of one HTLC (CounterpartyOfferedHTLCOutput::build records its arguments)
 //! trusted: assume_specification for core::cmp::max / core::cmp::min (std definitions): present in every unit so that a change that introduces them is verified instead of being rejected by the tool
